@@ -19,6 +19,8 @@
 //	                      a      the handler answers the request (2.05; the reply is cached under the request's message ID)
 //	arrivem:<m>:<prog>:<con|non>:+<d>   the same with a confirmable / non-confirmable request whose message ID is the ID of the
 //	                    last message the connection itself sent plus d (the peer's ID space happens to meet ours)
+//	mon:<m>:<prog>      (stream) one write with two frames: a message the connection's request monitor drops (the harness's monitor
+//	                    drops DELETE), and request m behind it — which is a message like any other
 //	dup:<m>             the peer sends the very datagram of request m once more (same message ID, same token: a retransmission)
 //	<op>&<op>&…         these ops are applied without running to quiescence in between; `yield` as a part lets the other goroutines
 //	                    run for a moment (no virtual time passes)
@@ -391,6 +393,22 @@ func (w *world) apply(f []string, obsExch map[int]bool) {
 		d := w.build(message.NonConfirmable, codes.GET, reqTok(m), mid, func(x *pool.Message) { _ = x.SetPath("/req") })
 		w.datagrams[m] = d
 		w.push(d)
+	case f[0] == "mon" && len(f) == 3:
+		w.tick()
+		m := atoi(f[1])
+		w.mu.Lock()
+		w.progs[lp.Hex(reqTok(m))] = f[2]
+		w.mu.Unlock()
+		mid := w.nextMid
+		w.nextMid += 2
+		dropped := w.build(message.NonConfirmable, codes.DELETE, reqTok(5000+m), mid, func(x *pool.Message) { _ = x.SetPath("/req") })
+		d := w.build(message.NonConfirmable, codes.GET, reqTok(m), mid+1, func(x *pool.Message) { _ = x.SetPath("/req") })
+		if w.udp {
+			w.push(dropped)
+			w.push(d)
+		} else {
+			w.push(append(append([]byte(nil), dropped...), d...))
+		}
 	case f[0] == "dup" && len(f) == 2:
 		w.tick()
 		if d, ok := w.datagrams[atoi(f[1])]; ok {
@@ -606,7 +624,9 @@ func newWorld(udp bool) *world {
 func runUDP(t *testing.T, queue int, limit, eplimit int64, ops []string) (out string) {
 	synctest.Test(t, func(t *testing.T) {
 		w := newWorld(true)
-		cc, s := mem.NewUDPConn(mem.UDPOpts{Mutate: func(cfg *udpclient.Config) {
+		// a request monitor that drops (without error) what carries the method DELETE
+		monitor := udpclient.WithRequestMonitor(func(_ *udpclient.Conn, r *pool.Message) (bool, error) { return r.Code() == codes.DELETE, nil })
+		cc, s := mem.NewUDPConn(mem.UDPOpts{ConnOpts: []udpclient.Option{monitor}, Mutate: func(cfg *udpclient.Config) {
 			cfg.LimitClientParallelRequests = limit
 			cfg.LimitClientEndpointParallelRequests = eplimit
 			cfg.ReceivedMessageQueueSize = queue
@@ -648,6 +668,8 @@ func runTCP(t *testing.T, cache int, queue int, limit, eplimit int64, ops []stri
 			cfg.LimitClientEndpointParallelRequests = eplimit
 			cfg.ReceivedMessageQueueSize = queue
 			cfg.BlockwiseEnable = false
+			// a request monitor that drops (without error) what carries the method DELETE
+			cfg.RequestMonitor = func(_ *tcpclient.Conn, r *pool.Message) (bool, error) { return r.Code() == codes.DELETE, nil }
 			if cache > 0 {
 				cfg.ConnectionCacheSize = uint16(cache)
 			}
